@@ -112,8 +112,11 @@ def gen_case(rng):
         files[f"{d}f{i}{ext}"] = gen_text(rng, a, b, ext)
     if rng.random() < 0.3:
         files["plain.txt"] = f"not a zorg file [[{a}]]\n"
+    cwd_sub = (not reldir) and rng.random() < 0.12
+    if cwd_sub:
+        files["cwdsub/" + srcfile] = gen_text(rng, a, b, ".zo")
     return {"src": a + (".zo" if src_ext or a.startswith(".") else ""), "dst": b + (".zo" if rng.random() < 0.3 or b.startswith(".") else ""), "files": files, "mkdst": rng.random() < 0.93,
-            "symlink": (not reldir) and rng.random() < 0.15, "reldir": reldir}
+            "symlink": (not reldir) and (not cwd_sub) and rng.random() < 0.15, "reldir": reldir, "cwd_sub": cwd_sub}
 
 
 def run_impl(ctx, case, zdir: Path, cfg: Path):
@@ -147,6 +150,17 @@ def run_impl(ctx, case, zdir: Path, cfg: Path):
             os.chdir(zdir.parent)
             try:
                 rc, out, err = Z.zorg_main(Path(zdir.name), "file", "rename", a1, a2, config=cfg)
+            finally:
+                os.chdir(cwd)
+        elif case.get("cwd_sub"):
+            # the command is run from a sub-directory of the notes directory that holds a page of the same relative name
+            # (`cwdsub/foo.zo` next to `foo.zo`): page names are relative to the NOTES directory, not to the working directory
+            import os
+
+            cwd = os.getcwd()
+            os.chdir(zdir / "cwdsub")
+            try:
+                rc, out, err = Z.zorg_main(zdir, "file", "rename", a1, a2, config=cfg)
             finally:
                 os.chdir(cwd)
         else:
@@ -229,7 +243,7 @@ def body(ctx: C.Ctx, proof: C.ProofStatus) -> C.Result:
 
 
 RULE = (
-    "random directories (.zo/.zot/.zoq in sub-directories) x (A,B) from a pool incl. regex metacharacters, dots, sub-directories, hidden pages / directories and their dot-less look-alikes; "
+    "random directories (.zo/.zot/.zoq in sub-directories) x (A,B) from a pool incl. regex metacharacters, dots, sub-directories, hidden pages / directories and their dot-less look-alikes; 12% run from a sub-directory of the notes directory that holds a same-named page; "
     "link texts [[A]], [[A#anchor]], 11 near-miss targets, partial/bracket look-alikes; CLI `file rename` in-process; bytes of all "
     "files vs one-pass spec, link-level comparison, Lean model renameText; non-trivial = directory containing at least one link to A"
 )
